@@ -495,7 +495,7 @@ def observed_coq(q, obs):
     if obs[0] == 'err':
         return 'CKeyError' if obs[1] == 500 else '(CErr %d)' % obs[1]
     areqs = ops.lst('(mkCreq (-1) %s %s)' % (
-        ops.lst('(mkRreq %s %s %s 0 0)' % tuple(ops.z(x) for x in row) for row in rows),
+        ops.lst('(mkRreq %s %s %s)' % tuple(ops.z(x) for x in row) for row in rows),
         ops.lst('(%s, %s)' % (ops.z(k), _zl(us)) for k, us in maps)) for rows, maps in obs[1])
     sums = ops.lst('(mkPsum %s %s %s %s %s)' % (
         ops.z(s[0]), ops.lst('(%s, %s, %s)' % tuple(ops.z(x) for x in r) for r in s[1]), _zl(s[2]),
@@ -518,7 +518,7 @@ def ask(app, b, q):
 CODES = {0: 'agree', 1: 'DISAGREE',
          2: 'order-dependent (anchor de-duplication), observed = all-anchors result',
          4: 'order-dependent (anchor de-duplication), observed LOST candidates (subset of all-anchors result)',
-         3: 'order-dependent (shared resource request mutated)', 9: 'STATE DUMP DIFFERS'}
+         9: 'STATE DUMP DIFFERS'}
 
 
 def ops_coq(b):
@@ -529,7 +529,7 @@ def ops_coq(b):
 def write_cases(path, states):
     """states: [(Built, [(query, observed)])]; Coq prints, per state, the dump check then one code per case"""
     with open(path, 'w') as f:
-        f.write('From PV Require Import Model.Candidates.\n')
+        f.write('From PV Require Import Spec.CandSpec.\n')
         f.write('Definition cf := mkCfg 0 0.\n')
         names = []
         for k, (b, cases) in enumerate(states):
@@ -540,6 +540,9 @@ def write_cases(path, states):
                     qc = query_coq(q, b)
                     items.append('cand_check (candidates %d %s d%d) (candidates_all_anchors %d %s d%d) %s' % (
                         q['v'], qc, k, q['v'], qc, k, observed_coq(q, obs)))
+                    # third party: the brute-force specification against the model (all anchors kept)
+                    items.append('spec_check %d (candidates_all_anchors %d %s d%d) (spec_candidates %d %s d%d)' % (
+                        q['v'], q['v'], qc, k, q['v'], qc, k))
                 else:
                     items.append('list_check (list_rps_result %d %s d%d) %s' % (q['v'], query_coq(q, b), k,
                                                                              observed_coq(q, obs)))
@@ -549,15 +552,18 @@ def write_cases(path, states):
         f.write('Eval vm_compute in results.\n')
 
 
-def model_answer(b, q, workdir='/tmp'):
+def model_answer(b, q, workdir='/tmp', spec=False):
     """debugging: the model's full answer to one query"""
     import subprocess
     path = os.path.join(workdir, 'cand_debug.v')
     with open(path, 'w') as f:
-        f.write('From PV Require Import Model.Candidates.\nDefinition cf := mkCfg 0 0.\n')
+        f.write('From PV Require Import Spec.CandSpec.\nDefinition cf := mkCfg 0 0.\n')
         f.write('Definition d := Eval vm_compute in run cf db0 %s.\n' % ops_coq(b))
         if q['kind'] == 'cand':
             f.write('Eval vm_compute in candidates %d %s d.\n' % (q['v'], query_coq(q, b)))
+            if spec:
+                f.write('Eval vm_compute in map (creq_view %d) (spec_candidates %d %s d).\n' % (
+                    q['v'], q['v'], query_coq(q, b)))
         else:
             f.write('Eval vm_compute in list_rps_result %d %s d.\n' % (q['v'], query_coq(q, b)))
     p = subprocess.run(['coqc', '-Q', coqrun.COQDIR, 'PV', path], capture_output=True, text=True, cwd=workdir)
@@ -567,7 +573,22 @@ def model_answer(b, q, workdir='/tmp'):
 LAST_STATS = {}
 
 
-def run(seed, n_states, n_queries, shard=20, workdir=None, verbose=True, keep=False):
+def classify_spec_diff(q, obs):
+    """known systematic differences between the code and the declarative specification"""
+    for gr in q['groups']:
+        if not gr['resources']:
+            if not gr['required'] and not gr['member_of']:
+                return 'A: resourceless group with only forbidden traits/aggregates or in_tree gets no provider'
+            if gr['in_tree'] is not None:
+                return 'B: in_tree of a resourceless group is ignored'
+    return 'UNCLASSIFIED'
+
+
+SPEC_CODES = {0: 'spec = model', 5: 'SPEC DIFFERS FROM MODEL', 6: 'model gives no candidate list'}
+SPEC_DIFFS = []
+
+
+def run(seed, n_states, n_queries, shard=20, workdir=None, verbose=True, keep=False, max_spec_print=6):
     """-> list of disagreements (dicts with the state's ops and dump, the query, its HTTP form, the observed
     canonical answer and the model's answer); statistics of the run are left in LAST_STATS"""
     rng = random.Random(seed)
@@ -585,12 +606,15 @@ def run(seed, n_states, n_queries, shard=20, workdir=None, verbose=True, keep=Fa
         states.append((b, cases))
     bad = []
     counts = {}
+    spec_counts = {}
+    spec_bad = []
+    spec_classes = {}
     for k in range(0, len(states), shard):
         part = states[k:k + shard]
         path = os.path.join(workdir, 'cand_cases_%d.v' % k)
         write_cases(path, part)
         res = coqrun.run_coq(path, timeout=3000)
-        assert len(res) == sum(1 + len(c) for _b, c in part), (len(res), 'codes')
+        assert len(res) == sum(1 + len(c) + sum(1 for q, _o in c if q['kind'] == 'cand') for _b, c in part), len(res)
         pos = 0
         for i, (b, cases) in enumerate(part):
             if res[pos] != 0:
@@ -600,6 +624,18 @@ def run(seed, n_states, n_queries, shard=20, workdir=None, verbose=True, keep=Fa
                 code = res[pos]
                 pos += 1
                 counts[code] = counts.get(code, 0) + 1
+                if q['kind'] == 'cand':
+                    sc = res[pos]
+                    pos += 1
+                    key = (SPEC_CODES[sc], 'impl: ' + ('500' if obs == ('err', 500) else
+                                                     '400' if obs[0] == 'err' else CODES[code].split(',')[0]))
+                    spec_counts[key] = spec_counts.get(key, 0) + 1
+                    if sc == 5:
+                        cls = classify_spec_diff(q, obs)
+                        spec_classes[cls] = spec_classes.get(cls, 0) + 1
+                        spec_bad.append({'class': cls, 'state': k + i, 'query': j, 'impl_vs_model': CODES[code], 'q': q,
+                                         'http': query_http(q), 'observed': obs, 'ops': b.ops, 'dump': b.dump,
+                                         'b': b})
                 if code == 1:
                     bad.append({'state': k + i, 'query': j, 'code': CODES[1], 'q': q, 'http': query_http(q),
                                 'observed': obs, 'coq_query': query_coq(q, b), 'ops': b.ops, 'dump': b.dump,
@@ -626,6 +662,9 @@ def run(seed, n_states, n_queries, shard=20, workdir=None, verbose=True, keep=Fa
         'list_nonempty': sum(1 for q, obs in allq if q['kind'] == 'list' and obs[0] == 'list' and obs[1]),
         'list_400': sum(1 for q, obs in allq if q['kind'] == 'list' and obs[0] == 'err'),
         'codes': {CODES[c]: n for c, n in sorted(counts.items())},
+        'model_vs_spec': {' / '.join(k): n for k, n in sorted(spec_counts.items())},
+        'spec_difference_classes': spec_classes,
+        'known_finding_anchor_dedup_cases': counts.get(2, 0) + counts.get(4, 0),
         'multi_group': sum(1 for q, _o in cand if len(q['groups']) > 1),
         'versions': len(set(q['v'] for q, _o in allq)),
     }
@@ -636,7 +675,17 @@ def run(seed, n_states, n_queries, shard=20, workdir=None, verbose=True, keep=Fa
             for key in ('state', 'query', 'code', 'http', 'q', 'observed', 'model', 'ops'):
                 if key in d:
                     print('%s: %s' % (key, d[key]))
-        print('seed %d: %d cases compared, %d disagreements' % (seed, len(allq), len(bad)))
+        for d in [x for x in spec_bad if x['class'] == 'UNCLASSIFIED'][:max_spec_print]:
+            print('=' * 70)
+            print('MODEL (= implementation: %s) DIFFERS FROM SPEC' % d['impl_vs_model'])
+            for key in ('state', 'query', 'http', 'observed'):
+                print('%s: %s' % (key, d[key]))
+            print('providers', [(r[0], r[3], r[4]) for r in d['dump'][0]], 'inv', [r[:7] for r in d['dump'][1]],
+                  'allocs', d['dump'][2], 'aggs', d['dump'][10], 'traits', d['dump'][11])
+            print(model_answer(d['b'], d['q'], workdir, spec=True)[-2500:])
+        print('seed %d: %d cases compared, %d disagreements impl/model, %d differences model/spec' % (
+            seed, len(allq), len(bad), len(spec_bad)))
+    SPEC_DIFFS[:] = spec_bad
     LAST_STATS.clear()
     LAST_STATS.update(stats)
     return bad
